@@ -14,11 +14,12 @@ def run(run, tier, seed):
                 "k-mer absent from a sample; distinct by (samples, partition, order, k)")
     run.assumptions = ["sample names are passed through a file list (name<TAB>file)", "ska nk --full-info exposes the whole table"]
     tc.design_and_replay(run, tier, seed, lambda r: any(h["op"]["do"] == "merge" for h in r["hist"]), "c07",
-                         60 if tier == "quick" else 1200)
+                         60 if tier == "quick" else 1200, focus="merge")
     rng = random.Random(seed + 7)
     sb = skacli.Sandbox("c07")
     try:
         tc.merge_episodes(run, sb, rng, tier)
+        tc.merge_width_refusals(run, sb, rng)
         events = sb.events
     finally:
         sb.close()
